@@ -40,6 +40,7 @@ ROWS = {
     ("CanonStreamMap::as_jvalue", "iter"): (INSENSITIVE, "collected into a JValue object, which is BTreeMap-backed (key-sorted) — checked below and by C25"),
     ("canon_stream_map::CanonStreamMap as core::fmt::Display>::fmt", "iter"): (LOGONLY, "Display of CanonStreamMap: log / debug text only"),
     ("outcome::dedup", "into_iter"): (ALLOWED, "order of next_peer_pks: the property compares the SET of next peers"),
+    ("preparation::make_exec_ctx", "values"): (INSENSITIVE, "`.values().any(size > limit)`: a boolean that is true iff SOME call result exceeds the limit; the error built from it carries only the configured limit, not the entry"),
     ("CidStore::iter", "iter"): ("wrapper", "judged at the call sites of CidStore::iter"),
     ("CidStore::verify", "into_iter"): (FIRST_ERROR, "B"),
     ("CidStore::verify_raw_value", "into_iter"): (FIRST_ERROR, "B-raw"),
